@@ -259,6 +259,7 @@ theorem expand_covers (G : LGraph) (hG : GraphHyp G) (cfg : Cfg) (pei : List (Na
       have hpg := hfv hk' hnil
       rw [if_neg (by simp [hpg])]
       rw [hnil]
+      unfold fvNoCtx
       exact hc
     · simp at hc
   · -- closure
